@@ -8,7 +8,9 @@ CHECK = dict(
     level="fault_enumeration",
     engine="timex",
     technique="exhaustive enumeration of per-node outcome x latency-order x caller-cancellation scripts, each executed on the real multi client "
-              "(Instrument -> provide/submit -> forkjoin) in virtual time with exact-instant oracles",
+              "(Instrument -> provide/submit -> forkjoin) in virtual time with exact-instant oracles; the same product on every client object that can be "
+              "DERIVED from the constructed one (chains of ClientForAddress / lazy wrapper / synthetic-duties wrapper) judged against a reference model of the "
+              "documented scoping, on every endpoint of the Client interface, and after the client's setters",
     claim="complete product over 1-3 primaries x 0-2 fallbacks (both tiers; every concrete error form on up to 2 x 1) of {success, generic error, timeout-, syncing-, "
           "bad-gateway-class error, hang} per node, every completion order, every cancellation instant between node answers, for a provide-style "
           "and a submit-style call, with every concrete error form isTimeoutError/isSyncingError/isBadGateway recognise. History dimension: the "
@@ -20,10 +22,40 @@ CHECK = dict(
           "layers the scripted nodes replace - lazily connecting HTTP node clients (newBeaconClient/lazy/go-eth2-client) - with hung nodes (accept, never "
           "answer) and the repository's beacon mock as healthy node: topologies {hung; hung,hung; hung|hung; hung,healthy; healthy,hung} x {provide, "
           "submit, proxy} x {first, second call on the client} x {caller cancels after 200 ms, never}; a call still blocked 20 s later, against node "
-          "timeouts of one hour, is judged to be waiting for a hung node",
+          "timeouts of one hour, is judged to be waiting for a hung node; part C also makes the judged call on ClientForAddress(healthy node) "
+          "(x 3 calls x first/second x cancel/never) and on ClientForAddress(hung node) (second call, cancelled) of the \"hung,healthy\" client (the first call "
+          "of a second-call script is made on the constructed client, the object is derived after it; a node client that has not connected yet reports an empty "
+          "address, so the healthy node is configured for the derived object under either reading and the oracle is the same), and runs "
+          "topology \"refused|healthy\" (node lists from NewSimnetFallbacks combined by Instrument; the primary's port is closed, the healthy fallback must answer; "
+          "x 3 calls x first/second x cancel/never); as in the other topologies with a healthy node, a call style that the beacon mock alone does not answer "
+          "successfully (today: submit) is skipped and named in a note. "
+          "DERIVED OBJECTS (zz_verif_c19_derived_test.go): derivation alphabet {ClientForAddress(address of primary i), (address of fallback j), (unknown address), "
+          "(empty address), NewLazyForT(object), WithSyntheticDuties(object)}; the statement is evaluated on the nodes that are configured for the derived object "
+          "according to the doc comment of ClientForAddress (scoped to a primary = that node as only primary + all fallbacks; scoped to a fallback = that node "
+          "alone; unknown/empty = the receiver; wrappers transparent) plus the clause that a node outside that configuration is never consulted. "
+          "D1: every single step on 1x1, 2x0, 2x1, 1x2, 2x2 nodes (thorough also 3x1, 3x2; the two wrappers on <=3 nodes in quick) and on the *multi of NewMultiForT "
+          "(2x1), complete product of six outcome classes x latency orders x {provide, submit, proxy} x every cancellation instant (quick tier on 2x2: cancel "
+          "{never, before the first answer, after the primaries}); D2: every chain of two steps "
+          "(7x7 on 2x1; thorough also 7x7 on 1x2 and 8x8 on 2x2), same product; D3: scoped to P0/P1/F0 on 2x1 with all 18 concrete error forms x {provide, submit, proxy} (quick: no cancel; thorough: every "
+          "instant); D4: the constructed 2x1 client first serves a provide call three times (thorough: once or three times) with every outcome vector over "
+          "{ok, generic, syncing, hang}, then the object is derived (P0/P1/F0) and judged (six classes x latency orders x provide/submit, no cancel). "
+          "E: each of the 44 provide/submit endpoints of the Client interface (24 Response-typed providers, 11 submitters, SlotDuration, SlotsPerEpoch, Domain, "
+          "GenesisDomain, ActiveValidators, CompleteValidators, Proposer/Attester/SyncComm-DutiesCache) on 2x1 x six classes x latency orders x cancel {never, before "
+          "the first answer, after the primaries} (thorough: every instant, and 1x2), and on the objects cfa(P1), cfa(F0), lazy (no cancel); the answering node is "
+          "identified through the response (metadata / value) wherever the result type can carry it; a method added to the interface that is in neither table "
+          "is reported as a note with exhaustive=false. S: SetValidatorCache / SetDutiesCache / SetForkVersion called on the constructed 2x1 client before or after "
+          "deriving {none, cfa(P0), cfa(P1), cfa(F0), cfa(unknown), lazy}, or on the derived object itself, then the endpoints whose answer depends on that state "
+          "(ActiveValidators, CompleteValidators; Proposer/Attester/SyncComm-DutiesCache; Domain of the voluntary-exit type) x six classes x latency orders, no "
+          "cancel (the scripted node, like the real httpAdapter, fails the cached endpoint without the cache): every consulted node that is a PRIMARY of the "
+          "object the setter was called on must hold the state, and the statement is evaluated with the answers the nodes really give (a node without the "
+          "state counts as failing); other nodes are not judged for holding it (the unchanged tree forwards setters to primaries only, so a fallback node "
+          "never serves a cached endpoint). Accessors (Address, Name, Headers, IsActive, IsSynced) are called on every derived object "
+          "but not judged (outside the statement; a panic is recorded as a note)",
     trusted="part C is the one place where a verdict depends on wall-clock time (network I/O cannot run on a virtual clock): bound 20 s vs one hour, "
-            "every candidate confirmed on two further runs; testing/synctest virtual time; scripted nodes honour their context; caller cancellation never coincides with a node answer (half-quantum offset)",
-    rule="scripts enumerated as a product; non-trivial class = call kind x topology x (returned, error)",
+            "every candidate confirmed on two further runs; the reference model of the derivation steps (c19effective) is the doc comment of "
+            "multi.ClientForAddress, under which the unchanged tree is silent; responses rejected by the two per-endpoint success predicates (syncing "
+            "SyncState, nil aggregate) are not modelled - the statement does not define them; testing/synctest virtual time; scripted nodes honour their context; caller cancellation never coincides with a node answer (half-quantum offset)",
+    rule="scripts enumerated as a product; non-trivial class = call kind x topology x (returned, error) x kind of derived object x endpoint x setter order",
     assumptions=ENUMX_ASSUME,
     budget_s={"quick": 100, "thorough": 1500},
 )
